@@ -264,11 +264,65 @@ def _default_text(d):
     return 'expr:' + unparse(d)
 
 
+NOISE_KW = {'help', 'metavar', 'description', 'epilog'}
+
+
+def _module_calls(body):
+    """Call statements at module level (command-line definitions and the like):
+    {callee + positional constants: {keyword: value text}}"""
+    out = {}
+    for st in body:
+        if not (isinstance(st, ast.Expr) and isinstance(st.value, ast.Call)):
+            continue
+        c = st.value
+        pos = [repr(a.value) for a in c.args if isinstance(a, ast.Constant)]
+        key = '%s(%s)' % (unparse(c.func), ', '.join(pos))
+        out[key] = {k.arg: unparse(k.value) for k in c.keywords
+                    if k.arg and k.arg not in NOISE_KW}
+    return out
+
+
+def template_attrs(pm):
+    """{template file: attribute names read, in document order} for the Jinja templates of
+    the Swift backends (parsed with jinja2's parser, never rendered)."""
+    out = {}
+    d = os.path.join(pm.repo, 'stone', 'backends', 'swift_rsrc')
+    if not os.path.isdir(d):
+        return out
+    try:
+        import jinja2
+        from jinja2 import nodes
+    except ImportError:
+        return out
+    env = jinja2.Environment(trim_blocks=True, lstrip_blocks=True)
+    for fn in sorted(os.listdir(d)):
+        if not fn.endswith('.jinja'):
+            continue
+        try:
+            with open(os.path.join(d, fn), encoding='utf-8') as fh:
+                tree = env.parse(fh.read())
+        except Exception:
+            continue
+        names = []
+
+        def walk(n):
+            if isinstance(n, nodes.Getattr):
+                walk(n.node)
+                names.append(n.attr)
+                return
+            for c in n.iter_child_nodes():
+                walk(c)
+        walk(tree)
+        out[fn] = names
+    return out
+
+
 def extract(pm):
     """{'modules': {name: {'constants'}}, 'classes': {q: {...}}, 'functions': {q: {...}}}"""
-    out = {'modules': {}, 'classes': {}, 'functions': {}}
+    out = {'modules': {}, 'classes': {}, 'functions': {}, 'templates': template_attrs(pm)}
     for name, m in pm.modules.items():
-        out['modules'][name] = {'constants': _constants_of(m.tree.body)}
+        out['modules'][name] = {'constants': _constants_of(m.tree.body),
+                                'calls': _module_calls(m.tree.body)}
     for q, c in pm.classes.items():
         specials = sorted(s.name for s in c.node.body
                           if isinstance(s, (ast.FunctionDef, ast.AsyncFunctionDef)) and
@@ -509,6 +563,40 @@ def run(pm, ctx, rule, patterns):
             pr = _const_problem('%s.%s' % (m.replace('stone.', ''), name), r, c)
             ctx.check(rule, pr is None, '%s.%s as confirmed' % (m.replace('stone.', ''), name),
                       where, msg=pr or '', key='%s|%s|const|%s' % (rule, m, name))
+        for key, rk in sorted(rm.get('calls', {}).items()):
+            ck = cm.get('calls', {}).get(key)
+            if ck is None:
+                continue
+            n += 1
+            diff = sorted(k for k in set(rk) | set(ck) if rk.get(k) != ck.get(k))
+            ctx.check(rule, not diff, '%s: module-level %s as confirmed' % (
+                m.replace('stone.', ''), key[:50]), where,
+                msg='%s: the module-level definition %s changed its %s: %s -> %s' % (
+                    m.replace('stone.', ''), key[:60], ', '.join(diff),
+                    {k: rk.get(k) for k in diff}, {k: ck.get(k) for k in diff}),
+                key='%s|%s|call|%s' % (rule, m, key[:60]))
+    if any(mm.startswith('stone.backends.swift') or mm.startswith('stone.backends.obj_c')
+           for mm in mods):
+        vocab = set()
+        for c_ in pm.classes.values():
+            vocab.update(c_.methods)
+            vocab.update(c_.attrs)
+        rt, ct = ref.get('templates', {}), cur.get('templates', {})
+        for fn, rnames in sorted(rt.items()):
+            cnames = ct.get(fn)
+            if cnames is None:
+                continue
+            n += 1
+            pr = None
+            if len(rnames) == len(cnames) and rnames != cnames:
+                pos = [i for i, (a, b) in enumerate(zip(rnames, cnames)) if a != b]
+                if 1 <= len(pos) <= 2 and sorted(rnames) != sorted(cnames):
+                    pr = ', '.join('.%s -> .%s' % (rnames[i], cnames[i]) for i in pos)
+            ctx.check(rule, pr is None, 'template %s reads the attributes it read on the confirmed '
+                                        'tree' % fn, 'stone/backends/swift_rsrc/' + fn,
+                      msg='template %s: attribute substituted (%s): the generated code is built '
+                          'from another part of the description' % (fn, pr),
+                      key='%s|template|%s' % (rule, fn))
     for q, c in sorted(cur['classes'].items()):
         cls = pm.classes[q]
         if cls.module.name not in mods:
